@@ -100,8 +100,11 @@ func (w *balWorld) freshAddr() util.Uint160 {
 	return u
 }
 
-func (w *balWorld) state() *balState {
-	s := &balState{raw: w.c.Storage(w.bal), accs: map[string]*rawAcc{}, supply: big.NewInt(0)}
+func (w *balWorld) state() *balState { return readBal(w.c, w.bal) }
+
+// readBal scans the raw storage of a Balance contract.
+func readBal(c *chainkit.Chain, bal util.Uint160) *balState {
+	s := &balState{raw: c.Storage(bal), accs: map[string]*rawAcc{}, supply: big.NewInt(0)}
 	for k, v := range s.raw {
 		if k == "MainnetGAS" {
 			s.supply = new(big.Int).Set(bigFromLE(v))
